@@ -25,7 +25,7 @@ fn transfer(handle: u32, delivery_id: Option<u32>, tag: Option<Vec<u8>>, fmt: Op
 
 // @tier thorough
 // @timeout 2400
-// @mem 30
+// @mem 24
 // @unwind 5
 // @bound 6 payload bytes (all values) cut into 3 chunks at every pair of split points (empty chunks included), read back with every pair of read sizes 0..=6 followed by a read of the rest
 // @desc the reader over the buffered chunks returns exactly the concatenation: nothing skipped, repeated or reordered, whatever the chunking and the read sizes
@@ -110,7 +110,7 @@ pharness!(c10_or_assign_fields, |s| {
 
 // @tier thorough
 // @timeout 2400
-// @mem 30
+// @mem 24
 // @unwind 5
 // @bound three payload frames of 2 symbolic bytes each
 // @desc appended chunks are kept in arrival order and read back as one contiguous payload
